@@ -242,5 +242,5 @@ def jobs(tier):
             trusted=TRUSTED,
             assumptions=assume + ['arity <= 16 (object-size bound for is_fresh; the loop is closed by invariant, not unwound)'],
             extracted=[ex], replay=replay_factory(fn), props=props,
-            timeout=600))
+            timeout=600, cex_unwind=17))
     return out
